@@ -1,3 +1,4 @@
+import JxlModel.Gen.TransformType
 import JxlModel.Driver.Common
 import JxlModel.Model.Subgrid
 import JxlModel.Model.Unchecked
@@ -288,6 +289,9 @@ def step (st : St) (ws : List String) : St × String :=
       | none => none
     | "bs" :: rest => bsOp st rest
     | "plan" :: rest => (planOp rest).map fun s => (st, s)
+    | ["ttype"] =>
+      let acc := (List.range 256).filter fun v => Jxl.Gen.TransformType.accepts v
+      some (st, s!"ttype variants={Jxl.Gen.TransformType.numVariants} accepted=" ++ ",".intercalate (acc.map toString))
     | _ =>
       -- the harness counts the step even for a malformed grid op
       match gridOp st ws with
